@@ -10,10 +10,11 @@ emit(shape, rotation, layout) -> (text, nodes): nodes in document order, each
 """
 
 SELECTORS = ['a', 'a:hover', 'a::before', '@media (min-width: 1px)', 'a[t="}"]', '.b > c', '&:hover', 'b:first-child a:hover',
-             'a:not(:hover)::after', 'a[t="\\"}{"]', 'a /* { ; } */ b', '::selection', ':root']
+             'a:not(:hover)::after', 'a[t="\\"}{"]', 'a /* { ; } */ b', '::selection', ':root',
+             ':-moz-x', 'a[t=\'5" {\']']           # a vendor-prefixed pseudo-class first; a string holding one quote of the other kind
 DECLS = [('b', 'c'), ('b', 'c d'), ('$v', '1px'), ('--x', 'y'), ('b', '"x;y{}"'), ('b', 'url(a)'), ('b', 'c /* ; */ d'),
          ('b', '"\\";}:"'), ('b', "'\\'};' d"), ('b', 'url(http://x/y:z)'),
-         ('$m', '(a: 1, b: (c: 2), d: 3)'), ('b', 'c /** ; **/ d')]
+         ('$m', '(a: 1, b: (c: 2), d: 3)'), ('b', 'c /** ; **/ d'), ('b', '"it\'s; }"')]
 DECLS_PAREN = [('b', 'url(a;b)'), ('b', 'f({)')]
 COMMENT = '/* } ; : { */'
 # comments in rotation: terminators preceded by further asterisks, empty comments
